@@ -19,8 +19,8 @@ def check(c):
     thorough = c.tier == "thorough"
     c.build_driver()
     trees = c.path("trees.ndjson")
-    c.model_check("ErrTreeMC", MC % ("none", 11 if thorough else 9, "TRUE"), tag="ErrTreeMC", env={"OUT_FILE": trees}, workers=4, timeout=3000)
-    c.negative_twin("ErrTreeMC", MC % ("innerOnly", 5, "FALSE"), tag="ErrTreeMC_neg_innerOnly", workers=2)
+    c.model_check("ErrTreeMC", MC % ("none", 11 if thorough else 9, "TRUE"), tag="ErrTreeMC", env={"OUT_FILE": trees}, workers=1, timeout=3000)   # one worker: deep trees overflow the stack of the parallel initial-state generator
+    c.negative_twin("ErrTreeMC", MC % ("innerOnly", 5, "FALSE"), tag="ErrTreeMC_neg_innerOnly", workers=1)
     trace = c.path("c19.ndjson")
     summ = c.path("c19.json")
     c.run_driver(["c19", "-cases", trees, "-trace", trace, "-out", summ])
